@@ -726,3 +726,25 @@ def run_potable(P, given, hooks=None, make=None, watch=None):
             r.raised = e.exc
             r.signal = e
     return r
+
+
+def setfl_comment_lines(chk, rule, P, funcname):
+    """lines 1-3 of a setfl file are comments whatever the caller passes: the element line is line 4 for 0..4 comment strings"""
+    fi = P.func("atsim.potentials._lammpsWriteEAM", funcname)
+    for n in range(0, 5):
+        I = make_interp(P, elem=EAM_ELEM)
+        fp = BufV("fp", is_file=True)
+        given = ["c%d" % i for i in range(n)]
+        I.run(fi, [nsym("nrho"), nsym("drho"), nsym("nr"), nsym("dr"), param("eam_potentials"), param("potentials"), fp],
+              {"comments": ListV([Const(c) for c in given], "list")})
+        parts = parts_of(out_tree(fp))
+        head = ""
+        for p in parts:
+            if isinstance(p, SLit):
+                head += p.text
+            else:
+                break
+        want = "\n".join((given + ["", "", ""])[:3]) + "\n"
+        ok = head.replace("\r\n", "\n").startswith(want) and not head.replace("\r\n", "\n")[len(want):].startswith("\n")
+        chk.ob(rule, "%s with %d comment string(s): exactly three comment lines precede the element line" % (funcname, n), ok,
+               site=fi.site(), found=head[:60], expect=want, key="%s|comments|%d" % (rule, n))
